@@ -167,6 +167,17 @@ def _text_pool(t):
                   16777217.0, 33554433.0, 1e17, 1e16, 12345678.0, 7.0, 1000000.0):
             s.add(conv(x))
             s.add(conv(-x))
+        if t == F32:
+            # floats with a SHORT decimal (7-8 significant digits, found by exhaustive search over all decimals of up to 8 digits)
+            # whose nearest double is exactly the midpoint between two adjacent floats: a literal written with fewer than 9 digits
+            # and without an f suffix is rounded twice by the C compiler (decimal -> double -> float) and lands on the neighbour.
+            # Both neighbours of each pair, both signs.
+            for a, b in ((0x15ae43fd, 0x15ae43fe), (0x0a4170a7, 0x0a4170a8), (0x128289d1, 0x128289d0), (0x152e43fd, 0x152e43fe),
+                         (0x162e43fd, 0x162e43fe), (0x16ae43fd, 0x16ae43fe), (0x172e43fd, 0x172e43fe), (0x78fee4af, 0x78fee4b0),
+                         (0x797ee4af, 0x797ee4b0)):
+                for v in (a, b):
+                    s.add(v)
+                    s.add(v | 0x80000000)
     else:
         bits = BITS[t]
         M = (1 << bits) - 1
